@@ -169,18 +169,15 @@ def _run_one(prog):
     from .c06_hist import HOOK, run_program
     import signal
 
-    class _Timeout(Exception):
-        pass
-
     def _alarm(*_a):
-        raise _Timeout()
+        raise HistoryTimeout()
     h0 = HOOK.hits
     t = time.time()
     old = signal.signal(signal.SIGALRM, _alarm)
     signal.alarm(600)
     try:
         r = run_program(prog)
-    except _Timeout:
+    except HistoryTimeout:
         HOOK.on = False
         return {"prog": prog, "steps": [], "fails": [("machinery:timeout", 0, {"err": "history did not finish within 600 s"},
                                                       {"cause": "none", "explained": False, "label": "timeout"})],
@@ -191,11 +188,23 @@ def _run_one(prog):
     finally:
         signal.alarm(0)
         signal.signal(signal.SIGALRM, old)
-    return {"prog": prog, "steps": r.steps, "fails": [(l, s, d, g) for (l, s, d, g) in r.fail][:40], "nfails": len(r.fail), "reads": r.nreads,
+    # keep what travels back to the parent small: first difference only, one failure per (oracle, signature)
+    seen, fails = set(), []
+    for (l, s_, d, g) in r.fail:
+        k = (l.split(":")[0], json.dumps(g, sort_keys=True))
+        if k in seen:
+            continue
+        seen.add(k)
+        fails.append((l, s_, short(d), g))
+    return {"prog": prog, "steps": r.steps, "fails": fails[:40], "nfails": len(r.fail), "reads": r.nreads,
             "hits": HOOK.hits - h0, "events": sorted(r.observed_event_kinds), "wall": time.time() - t}
 
 
 _FLAGS = None
+
+
+class HistoryTimeout(BaseException):
+    """raised by SIGALRM inside a worker; a BaseException so that no `except Exception` of the harness or the library swallows it"""
 
 
 def _init_worker(flags):
@@ -234,10 +243,13 @@ def _pool_map(fn, jobs, procs, hard_timeout=900):
     from concurrent.futures.process import BrokenProcessPool
     if procs <= 1 or len(jobs) < 4:
         return [fn(j) for j in jobs]
+    import gc
     ctx = mp.get_context("fork")
     results = [None] * len(jobs)
     pending = list(range(len(jobs)))
     rounds = 0
+    gc.collect()
+    gc.freeze()    # the parent's heap is inherited copy-on-write: keep the children's gc.collect() (an op of the histories) off it
     while pending and rounds < 6:
         rounds += 1
         flags = ctx.Array("b", len(jobs), lock=False)
@@ -267,6 +279,7 @@ def _pool_map(fn, jobs, procs, hard_timeout=900):
                 results[i] = _lost(jobs[i], "MemoryError in the worker")
             ex1.shutdown(wait=False, cancel_futures=True)
         pending = [i for i in pending if results[i] is None]
+    gc.unfreeze()
     for i in pending:
         if results[i] is None:
             results[i] = _lost(jobs[i], "not executed: the worker pool kept breaking")
